@@ -19,6 +19,17 @@ use crate::value::{CheapClone, JsString};
 impl Compiler {
     /// Compile a statement
     pub fn compile_statement_impl(&mut self, stmt: &Statement) -> Result<(), JsError> {
+        // Registers only hold expression temporaries (variables live in environments),
+        // so everything a statement allocated is dead when it ends.  Give the window
+        // back: otherwise argument/element windows pile up and a long enough sequence
+        // of individually fine statements runs out of registers.
+        self.builder.registers().save();
+        let result = self.compile_statement_inner(stmt);
+        self.builder.registers().restore();
+        result
+    }
+
+    fn compile_statement_inner(&mut self, stmt: &Statement) -> Result<(), JsError> {
         match stmt {
             Statement::Expression(expr_stmt) => {
                 self.builder.set_span(expr_stmt.span);
